@@ -147,6 +147,7 @@ def val_of(entry):
 # ---------------------------------------------------------------------------------------------
 NBYTES = z3.Function("nbytes", sv.RealS, sv.IntS)
 ISMASKED = z3.Function("is_masked_array", sv.RealS, sv.BoolS)
+ANYMASKED = z3.Function("has_masked_values", sv.RealS, sv.BoolS)   # numpy.ma.is_masked(x)
 DROPMASK = z3.Function("without_mask", sv.RealS, sv.RealS)        # a masked payload whose mask was lost (values of masked cells exposed)
 UNITS_OF = z3.Function("units_of", sv.RealS, sv.OpaqueS)          # unit label of a payload value
 REQUANT = z3.Function("requantified", sv.RealS, sv.OpaqueS, sv.RealS)   # the magnitude of a payload under another unit label
@@ -353,6 +354,15 @@ def install2(ex):
 
     ex.ext_models["numpy.ma.isMaskedArray"] = is_masked
     ex.pure_ext.add("np.ma.isMaskedArray")
+
+    def any_masked(ex, path, args, kwargs, node):
+        # numpy.ma.is_masked: some element is actually masked (stronger than being a MaskedArray)
+        v = ex.expect(args[0], sv.SPay, path, node)
+        path.assume(Implies(ANYMASKED(v.e), ISMASKED(v.e)))
+        return sv.SBool(ANYMASKED(v.e))
+
+    ex.ext_models["numpy.ma.is_masked"] = any_masked
+    ex.pure_ext.add("np.ma.is_masked")
 
     def dump_hook(ex, base, attr, path, node):
         if isinstance(base, sv.SPay) and attr == "dump":
